@@ -125,11 +125,25 @@ def guarded(fn, limit=20):
         signal.signal(signal.SIGALRM, old)
 
 
-def run_impl(c, limit=20):
+TIMEOUTS = {'n': 0}
+
+
+def run_impl(c, limit=15):
+    if TIMEOUTS['n'] >= 3 and c['kind'].startswith('exact'):
+        return ('skipped',)          # the search already failed to terminate three times in this run: stop spending time on it
     try:
         return guarded(lambda: _run_impl(c), limit)
     except TimeoutError as e:
+        TIMEOUTS['n'] += 1
         return ('err', 'TimeoutError', str(e))
+    except OverflowError:            # F(inf) / F(nan): the implementation returned a non-finite cost
+        return ('err', 'NonFiniteResult', 'the implementation returned inf or nan')
+
+
+def _fin(x):
+    x = float(x)
+    if not math.isfinite(x): raise OverflowError('non-finite')
+    return F(x)
 
 
 def _run_impl(c):
@@ -138,13 +152,13 @@ def _run_impl(c):
     try:
         if c['kind'] == 'cost_custom':
             pm = [float(x) for x in c['pmf']]
-            return ('ok', F(ss.s_s_cost_discrete(c['s'], c['S'], h, p, K, False, None, c.get('demand_hi', len(pm) - 1), pm)))
+            return ('ok', _fin(ss.s_s_cost_discrete(c['s'], c['S'], h, p, K, False, None, c.get('demand_hi', len(pm) - 1), pm)))
         if c['kind'] == 'cost_poisson':
-            return ('ok', F(ss.s_s_cost_discrete(c['s'], c['S'], h, p, K, True, c['mean'])))
+            return ('ok', _fin(ss.s_s_cost_discrete(c['s'], c['S'], h, p, K, True, c['mean'])))
         if c['kind'] == 'exact_custom':
             pm = [float(x) for x in c['pmf']]
             s, S, g = ss.s_s_discrete_exact(h, p, K, False, None, c.get('demand_hi', len(pm) - 1), pm)
-            return ('ok', int(s), int(S), F(g))
+            return ('ok', int(s), int(S), _fin(g))
         # Poisson exact: record which one-period costs the run asked for (range of the G table handed to the model)
         seen = []
         orig = ss.newsvendor_poisson_cost
@@ -156,7 +170,9 @@ def _run_impl(c):
         finally:
             ss.newsvendor_poisson_cost = orig
         c['_yrange'] = (min(seen), max(seen))
-        return ('ok', int(s), int(S), F(g))
+        return ('ok', int(s), int(S), _fin(g))
+    except OverflowError:
+        raise
     except Exception as e:
         return ('err', exc_kind(e), str(e)[:200])
 
@@ -282,14 +298,27 @@ def oracle_exact(c, r, chk=None):
     name = 's_s_discrete_exact|%s' % ('custom' if custom else 'poisson')
     if not s < S:
         return [(name + '|s>=S', 'returned s=%d >= S=%d' % (s, S), None)]
-    if custom:
+    if S - s > 400:
+        return [(name + '|absurd-pair', 'returned (%d,%d): S-s = %d' % (s, S, S - s), None)]
+    if custom and S - s <= 40:
         pm = np.array([float(x) for x in c['pmf']])
         ex = chain_cost_exact(h, p, K, c['pmf'], s, S)
         ok = ex is not None and close(g, ex, rel=1e-12, abs_=1e-12)
+    elif custom:
+        pm = np.array([float(x) for x in c['pmf']])
+        ex = chain_cost_np(float(h), float(p), float(K), pm, GCache(float(h), float(p), pm), s, S)
+        ok = close(g, ex)
     else:
         pm = poisson_table(c['mean'])
         ex = chain_cost_np(float(h), float(p), float(K), pm, GCache(float(h), float(p), pm), s, S)
         ok = close(g, ex)
+        if chk is not None and '_yrange' in c:     # hypothesis of C13_zf_optimal_anyG on SciPy's numbers: unimodal at y* on the visited range
+            from stockpyl.newsvendor import newsvendor_poisson_cost, newsvendor_poisson
+            ys = int(newsvendor_poisson(float(h), float(p), c['mean'])[0]); lo, hi = c['_yrange']
+            v = {y: newsvendor_poisson_cost(y, float(h), float(p), c['mean']) for y in range(lo - 1, hi + 2)}
+            uni = all((v[y + 1] <= v[y] * (1 + 1e-12)) if y < ys else (v[y] <= v[y + 1] * (1 + 1e-12)) for y in range(lo - 1, hi + 1))
+            chk.extra['poisson_G_unimodal_on_visited_range'] = chk.extra.get('poisson_G_unimodal_on_visited_range', 0) + (1 if uni else 0)
+            if not uni: chk.extra['poisson_G_not_unimodal'] = chk.extra.get('poisson_G_not_unimodal', 0) + 1
     if not ok:
         bad.append((name + '|cost-of-returned-pair', 'reported cost %r for (%d,%d) but that pair\'s long-run average cost is %r' % (float(g), s, S, None if ex is None else float(ex)), None))
     best, win, capped = grid_best(float(h), float(p), float(K), pm, float(g))
@@ -298,9 +327,10 @@ def oracle_exact(c, r, chk=None):
         if capped: chk.extra['grid_window_capped'] = chk.extra.get('grid_window_capped', 0) + 1
     if best[0] < float(g) * (1 - 1e-9) - 1e-12:
         confirmed = True
-        if custom:   # confirm exactly before reporting
+        if custom and S - s <= 40 and best[2] - best[1] <= 40:   # confirm exactly before reporting
             exb = chain_cost_exact(h, p, K, c['pmf'], best[1], best[2])
-            confirmed = exb is not None and ex is not None and exb < ex
+            exr = chain_cost_exact(h, p, K, c['pmf'], s, S)
+            confirmed = exb is not None and exr is not None and exb < exr
         if confirmed:
             bad.append((name + '|not-optimal', 'returned (%d,%d) with cost %r, but (%d,%d) costs %r' % (s, S, float(g), best[1], best[2], best[0]), None))
     return bad
@@ -329,6 +359,7 @@ def oracle_entry_agreement(c, r):
             elif not close(g2, r[3], rel=1e-9 + 100 * tailmass):
                 bad.append(('s_s_discrete_exact|poisson-vs-custom', 'same pair, costs %r vs %r' % (float(r[3]), float(g2)), None))
     except Exception as e:
+        if isinstance(e, TimeoutError): TIMEOUTS['n'] += 1
         bad.append(('%s|custom-entry-raises-%s' % ('s_s_cost_discrete' if c['kind'] == 'cost_poisson' else 's_s_discrete_exact', exc_kind(e)),
                     'custom entry point with the Poisson pmf raises: %s' % str(e)[:150], None))
     return bad, 0
@@ -361,7 +392,7 @@ def model_expr(c):
     pm = [F(x) for x in poisson.pmf(range(hi - lo + 1), c['mean'])]
     g = [F(newsvendor_poisson_cost(y, h, p, c['mean'])) for y in range(lo, hi + 1)]
     ystar = int(newsvendor_poisson(h, p, c['mean'])[0])
-    return 'rmap obs3 (s_s_exact_poisson %s %s %s %s %s %s)' % (cq(c['K']), cqlist(pm), cz(lo), cqlist(g), cnat(FUEL), cz(ystar))
+    return 'rmap obs3 (s_s_exact_poisson %s %s %s %s %s %s)' % (cq(c['K']), cqlist(pm), cz(lo), cqlist(g), cnat(hi - lo + 3), cz(ystar))
 
 
 def compare_model(chk, c, r, m):
@@ -370,7 +401,7 @@ def compare_model(chk, c, r, m):
     rel = 1e-12 if custom else 1e-9
     if isinstance(m, str):       # an error constructor
         if m == 'NoFuel':
-            chk.mismatch('model ran out of fuel (%d)' % FUEL, c); return
+            chk.mismatch('model ran out of fuel', public(c)); return
         if r[0] != 'err' or r[1] != m:
             chk.mismatch('model raises %s but implementation gives %r' % (m, jsonable(r[:3])), c)
         return
@@ -419,7 +450,7 @@ def check_one(chk, c, r, do_agreement=True):
         chk.fail('%s|%s|raises-%s' % (fn, feat, r[1]), 'valid input raises %s: %s' % (r[1], r[2]), public(c))
         return False
     bad = oracle_cost(c, r) if c['kind'].startswith('cost') else oracle_exact(c, r, chk)
-    if do_agreement and c['kind'].endswith('poisson'):
+    if do_agreement and c['kind'].endswith('poisson') and TIMEOUTS['n'] < 3:
         b2, tie = oracle_entry_agreement(c, r)
         bad += b2
         if tie: chk.extra['near_tie_skipped'] = chk.extra.get('near_tie_skipped', 0) + 1
@@ -435,19 +466,27 @@ def explore(chk, plan, do_model=True):
         for _ in range(n):
             cases.append(gen_malformed(rng) if kind == 'malformed' else gen_case(rng, kind, chk.tier))
     impl = [run_impl(c) for c in cases]
-    exprs, idx = [], []
+    model, model_failed = {}, {}
     if do_model:
+        light, heavy = [], []          # (case index, expression); Poisson expressions are heavy (big rationals)
         for i, c in enumerate(cases):
             if c['malformed'] == 'pmf_len': continue      # demand_hi is not a parameter of the model
             e = model_expr(c)
             if e is not None:
-                exprs.append(e); idx.append(i)
-        # heavy (Poisson) expressions are spread over the shards by interleaving
-        order = sorted(range(len(exprs)), key=lambda j: (j % 8))
-        res = coq_eval_sharded('c13', 'Alg.SS', DEFS, [exprs[j] for j in order], shard=max(1, (len(exprs) + 7) // 8), jobs=8)
-        model = {idx[j]: v for j, v in zip(order, res)}
-    else:
-        model = {}
+                (heavy if c['kind'].endswith('poisson') else light).append((i, e))
+        res = coq_eval_sharded('c13', 'Alg.SS', DEFS, [e for _, e in light])
+        model.update({i: v for (i, _), v in zip(light, res)})
+        # heavy ones: few per shard, bounded time; a model evaluation that does not finish is reported as a disagreement
+        for k in range(0, len(heavy), 8):
+            grp = heavy[k:k + 8]
+            from concurrent.futures import ThreadPoolExecutor
+            def one(ie):
+                try: return coq_eval('c13h_%d' % ie[0], 'Alg.SS', DEFS, [ie[1]], timeout=240)[0]
+                except RuntimeError as ex: return ('FAILED', str(ex)[-300:])
+            with ThreadPoolExecutor(max_workers=8) as ex:
+                for (i, _), v in zip(grp, ex.map(one, grp)):
+                    if isinstance(v, tuple) and v and v[0] == 'FAILED': model_failed[i] = v[1]
+                    else: model[i] = v
     for i, (c, r) in enumerate(zip(cases, impl)):
         chk.count('kind=%s' % c['kind']); chk.count('malformed=%s' % c['malformed'])
         if 'pmf' in c and not c['malformed']:
@@ -456,11 +495,15 @@ def explore(chk, plan, do_model=True):
             if c['kind'] == 'cost_custom': chk.count('S-s>D=%s' % (c['S'] - c['s'] > D))
         if 'mean' in c and not c['malformed']:
             chk.count('mean_bucket=%s' % ('<=3' if c['mean'] <= 3 else '<=10' if c['mean'] <= 10 else '<=20'))
+        if r[0] == 'skipped':
+            chk.count('skipped_after_timeouts'); continue
         nontriv = check_one(chk, c, r)
+        if i in model_failed:
+            chk.mismatch('model evaluation did not finish (tables taken from the implementation run do not fit the model\'s run): %s' % model_failed[i][-160:], public(c))
         if i in model:
             chk.traces += 1
             chk.count('model_evaluated=%s' % c['kind'])
-            compare_model(chk, c, r, model[i])
+            compare_model(chk, public(c), r, model[i])
         chk.case(public(c), nontriv, case_key(c))
 
 
@@ -474,13 +517,14 @@ def run(chk):
     chk.assume += ['floating-point rounding is not modelled: theorems are over exact rationals',
                    'that the stationary cost IS the long-run average cost (uniqueness of the stationary distribution / ergodic theorem) is not proved in Coq; the oracle solves the '
                    'stationary equations with the normalisation, which has a unique solution here because every state reaches S',
-                   'global optimality of the pair returned by s_s_discrete_exact is NOT a Coq theorem (zf_optimal_statement is only stated); it is checked by exhaustive window search per generated instance',
-                   'for the Poisson entry point, "s minimises c(.,S)" is conditional on SciPy\'s one-period costs being unimodal at y* (not proved)']
+                   'global optimality of the pair returned by s_s_discrete_exact is a Coq theorem for the model of the custom-pmf entry point (C13_zf_optimal); for the Poisson entry point it is '
+                   'conditional on SciPy\'s one-period costs being unimodal at y* and on the untruncated pmf (C13_zf_optimal_anyG), hence checked by exhaustive window search per instance',
+                   'termination of the search is not proved (explicit fuel in the model; watchdog on the implementation)']
     chk.proof()
     if chk.tier == 'quick':
         plan = [('cost_custom', 400), ('cost_poisson', 150), ('exact_custom', 180), ('exact_poisson', 50), ('malformed', 60)]
     else:
-        plan = [('cost_custom', 1500), ('cost_poisson', 500), ('exact_custom', 700), ('exact_poisson', 160), ('malformed', 200)]
+        plan = [('cost_custom', 8000), ('cost_poisson', 2400), ('exact_custom', 4000), ('exact_poisson', 800), ('malformed', 500)]
     explore(chk, plan)
     if (chk.broken or chk.mismatches) and not chk.fails:
         # directed search for a failing input: bigger budget, oracle only
